@@ -19,8 +19,10 @@
      the proposal options of the three types as currently stored, the active validator list
      (address, power), the full validator list, the bounty and execution-cost addresses, and the
      ids whose configuration update function reports an error.  Theorems quantify over all envs.
-   * every handler is callable from any sender at any height; there is no signature or sender
-     check in the deliver path (DeliverTx does not call Validate).
+   * every handler is callable from any sender at any height.  Since /repo d276709 DeliverTx runs the kind's
+     Validate first (signatures, fee, OLT currency, address / id / opinion syntax); none of these checks looks at
+     the governance state, and the model's operations are the ones that pass them (a vote by a non-validator is
+     refused by Validate and by the handler alike).  Validate does NOT check the sign of a fund / withdraw amount.
    * Go [float64]: ResultSoFar compares yes/total and 1-no/total with pass/100 in float64; the
      model compares exactly ([yes*100 >= pass*total], [(total-no)*100 < pass*total]).  Exact for
      total power < 2^45 and [(total-no)*100 <> pass*total] (tally_float_guard).  The shares of the
@@ -311,6 +313,9 @@ Definition h_expire (s : state) (id : N) : hres :=
   match g_props s !! id with
   | Some p =>
       if negb (bool_decide (p_store p = SActive)) then None
+      (* /repo 0988205: only a proposal in its voting stage whose voting deadline has passed *)
+      else if negb (bool_decide (p_status p = StVoting)) then None
+      else if g_h s <=? p_vdl p then None
       else Some (set_prop s id (with_stage p SFailed StCompleted OInsufVotes), [])
   | None => None
   end.
@@ -336,6 +341,15 @@ Definition distribute (s : state) (e : env) (id : N) (p : prec) (d : dist) : sta
   let s5 := add_pool s4 left in
   (s5, each * n + xp + xb + xe + left, (n =? 0) || (p_total p <? asum (p_indiv p))).
 
+(* setToFinalizeFromPassed / FromFailed / setToFinalizeFailed: Set into the target store, then Delete from the store the
+   code EXPECTS the record in.  The tally is recomputed with the proposal's own pass percentage, whereas the vote
+   handler decided the store with the current option percentage: when the two disagree the record is read from the
+   other store, the Delete removes nothing and the id ends up in both stores (the first one is what every later
+   lookup finds; [p_extra] records the second copy). *)
+Definition fin_move (p : prec) (expected target : store) (bit : Z) : prec :=
+  if bool_decide (p_store p = expected) then with_stage p target (p_status p) (p_outcome p)
+  else with_extra p bit.
+
 Definition h_finalize (s : state) (e : env) (id : N) : hres :=
   match g_props s !! id with
   | Some p =>
@@ -351,23 +365,20 @@ Definition h_finalize (s : state) (e : env) (id : N) : hres :=
                    match tally (p_votes p) (p_pass p) with
                    | RTBD => None
                    | RPassed =>
-                       let wrong := negb (bool_decide (p_store p = SPassed)) in
                        if bool_decide (p_type p = TConfig) && bool_decide (id ∈ e_cfgfail e)
-                       then let s1 := set_prop s id (with_stage p SFinFailed (p_status p) (p_outcome p)) in
-                            Some (if wrong then set_anom s1 else s1, [])
+                       then Some (set_prop s id (fin_move p SPassed SFinFailed 16), [])
                        else
                          let evc := if bool_decide (p_type p = TConfig) then [EvConfig id] else [] in
                          let s0 := if bool_decide (p_type p = TConfig) then push_applied s id else s in
                          let '(s1, paid, bad) := distribute s0 e id p (o_dpass (opts_of e (p_type p))) in
-                         let p1 := del_funds e id (with_stage p SFinalized (p_status p) (p_outcome p)) in
+                         let p1 := del_funds e id (fin_move p SPassed SFinalized 8) in
                          let s2 := set_prop s1 id p1 in
-                         Some (if wrong || bad then set_anom s2 else s2, evc ++ [EvDistrib id paid (p_total p)])
+                         Some (if bad then set_anom s2 else s2, evc ++ [EvDistrib id paid (p_total p)])
                    | RFailed =>
-                       let wrong := negb (bool_decide (p_store p = SFailed)) in
                        let '(s1, paid, bad) := distribute s e id p (o_dfail (opts_of e (p_type p))) in
-                       let p1 := del_funds e id (with_stage p SFinalized (p_status p) (p_outcome p)) in
+                       let p1 := del_funds e id (fin_move p SFailed SFinalized 8) in
                        let s2 := set_prop s1 id p1 in
-                       Some (if wrong || bad then set_anom s2 else s2, [EvDistrib id paid (p_total p)])
+                       Some (if bad then set_anom s2 else s2, [EvDistrib id paid (p_total p)])
                    end
                end
       end
@@ -445,6 +456,19 @@ Definition rank_of (s : state) (id : N) : nat :=
   match g_props s !! id with Some p => rank p | None => 0%nat end.
 
 (* ---- triggers of the known findings (Coq-defined predicates over the step input) ---- *)
-(* C14.public_expire_votes: EXPIRE_VOTES arrives as a public transaction *)
+(* EXPIRE_VOTES arrives as a public transaction (was the trigger of C14.public_expire_votes, fixed by /repo 0988205) *)
 Definition trig_public_expire (t : txop) : bool :=
   match t_op t with OExpire _ => true | _ => false end.
+
+(* C14.negative_fund_amount: a contribution / withdrawal with a negative amount (Validate checks the currency, not the sign) *)
+Definition trig_negative_amount (t : txop) : bool :=
+  match t_op t with
+  | OFund _ _ a => a <? 0
+  | OWithdraw _ _ a _ => a <? 0
+  | _ => false
+  end.
+
+(* C14.pass_percentage_drift: the proposal sits in the failed store although its recorded votes pass under its own
+   percentage (the vote handler decided with a different, current option percentage) *)
+Definition trig_failed_but_passing (p : prec) : bool :=
+  bool_decide (p_store p = SFailed) && bool_decide (tally (p_votes p) (p_pass p) = RPassed).
